@@ -191,3 +191,66 @@ Qed.
 
 Corollary bare_posting_has_no_amount a : name_ok a = true -> has_amount_text (snd (split_post_line a)) = false.
 Proof. intros Ha. rewrite (split_post_line_bare a Ha). reflexivity. Qed.
+
+(* ---- the state flag before the account ---- *)
+Definition is_marker (c : Z) : bool := Z.eqb c STAR || Z.eqb c BANG.
+Definition state_of_marker (c : Z) : pstate := if Z.eqb c STAR then SCleared else SPending.
+
+Lemma skip_ws_ws b rest : forallb is_ws b = true -> skip_ws (b ++ rest) = skip_ws rest.
+Proof.
+  induction b as [|c b IH]; intros H; [reflexivity|].
+  cbn in H. apply andb_true_iff in H. destruct H as [Hc Hb]. cbn [app skip_ws]. rewrite Hc. apply IH. exact Hb.
+Qed.
+
+Lemma marker_not_ws m : is_marker m = true -> is_ws m = false.
+Proof.
+  unfold is_marker, STAR, BANG. intros H. apply orb_true_iff in H.
+  destruct H as [H|H]; apply Z.eqb_eq in H; subst m; reflexivity.
+Qed.
+
+(* a flag, any white space after it (none included), then the posting: the flag is read and the posting is read as if
+   the flag were not there *)
+Theorem read_post_line_marked m ws line :
+  is_marker m = true -> forallb is_ws ws = true -> skip_ws line = line ->
+  read_post_line (m :: ws ++ line) = (state_of_marker m, split_post_line line).
+Proof.
+  intros Hm Hws Hl. unfold read_post_line, strip_state. cbn [skip_ws]. rewrite (marker_not_ws m Hm).
+  unfold state_of_marker. unfold is_marker in Hm.
+  destruct (Z.eqb m STAR) eqn:E1.
+  - rewrite (skip_ws_ws ws line Hws), Hl. reflexivity.
+  - cbn [orb] in Hm. rewrite Hm. rewrite (skip_ws_ws ws line Hws), Hl. reflexivity.
+Qed.
+
+(* no flag: the line is read as before (leading white space skipped) *)
+Theorem read_post_line_unmarked ind c t :
+  forallb is_ws ind = true -> is_ws c = false -> is_marker c = false ->
+  read_post_line (ind ++ c :: t) = (SUncleared, split_post_line (c :: t)).
+Proof.
+  intros Hi Hc Hm. unfold read_post_line, strip_state. rewrite (skip_ws_ws ind (c :: t) Hi). cbn [skip_ws]. rewrite Hc.
+  unfold is_marker in Hm. apply orb_false_iff in Hm. destruct Hm as [-> ->]. reflexivity.
+Qed.
+
+(* so the flag decides nothing of what the balance is made of: account, kind and amount text are those of the bare line *)
+Theorem state_flag_changes_nothing_read m ws line :
+  is_marker m = true -> forallb is_ws ws = true -> skip_ws line = line ->
+  (forall c t, line = c :: t -> is_marker c = false) ->
+  snd (read_post_line (m :: ws ++ line)) = snd (read_post_line line).
+Proof.
+  intros Hm Hws Hl Hn. rewrite (read_post_line_marked m ws line Hm Hws Hl). cbn [snd].
+  destruct line as [|c t].
+  - reflexivity.
+  - assert (Hc : is_ws c = false).
+    { cbn [skip_ws] in Hl. destruct (is_ws c) eqn:E; [|reflexivity]. exfalso.
+      assert (Hlen : forall s, (length (skip_ws s) <= length s)%nat).
+      { induction s as [|x s IH]; [cbn; lia|]. cbn [skip_ws]. destruct (is_ws x); cbn [length]; lia. }
+      pose proof (Hlen t) as H1. rewrite Hl in H1. cbn [length] in H1. lia. }
+    pose proof (read_post_line_unmarked [] c t eq_refl Hc (Hn c t eq_refl)) as H0. cbn [app] in H0. rewrite H0. reflexivity.
+Qed.
+
+Example ex_state_flags :
+  let a := [65; 58; 66]%Z in
+  read_post_line ([STAR; SP] ++ a ++ [SP; SP; 36; 53]) = (SCleared, ((KReal, a), Some [36; 53]%Z)) /\
+  read_post_line ([BANG] ++ [40] ++ a ++ [41; TAB; 36; 53]) = (SPending, ((KVirtual, a), Some [36; 53]%Z)) /\
+  read_post_line ([STAR; SP; BANG; SP] ++ a ++ [SP; SP; 36; 53]) = (SCleared, ((KReal, [BANG; SP] ++ a), Some [36; 53]%Z)) /\
+  read_post_line (a ++ [SP; SP; 36; 53]) = (SUncleared, ((KReal, a), Some [36; 53]%Z)).
+Proof. vm_compute. repeat split. Qed.
